@@ -123,14 +123,29 @@ def _lattice_case(draw, tier):
   clip = draw(st.booleans())
   xmodes = ["interior", "vertices", "faces", "ties"]
   if clip:
-    xmodes.append("outside")
+    # out-of-range points are the only ones the clipping code acts on (per
+    # dimension, differently for tensor and list inputs): half of the clipped
+    # cases use them (seeded change S-C19-3 was missed with a 1-in-5 share).
+    xmodes += ["outside"] * 4
+  as_list = draw(st.integers(0, 2)) == 0
+  xmode = draw(st.sampled_from(xmodes))
+  if draw(st.integers(0, 3)) == 0:
+    # clipping focus (one case in four): clipped out-of-range points on a
+    # lattice whose sizes are not all equal, tensor and list inputs alike - the
+    # per-dimension clip bounds are the only place where sizes, input format
+    # and out-of-range points interact.
+    clip, xmode, as_list = True, "outside", draw(st.booleans())
+    sizes = list(sizes)
+    if len(sizes) > 1 and len(set(sizes)) == 1:
+      j = draw(st.integers(0, len(sizes) - 1))
+      sizes[j] += 1
   n = int(np.prod(sizes))
   return {"kind": "lattice", "sizes": sizes, "units": units,
           "interp": draw(st.sampled_from(["hypercube", "simplex"])),
           "clip": clip, "rows": draw(st.sampled_from([None, None, 1, 2])),
-          "as_list": draw(st.integers(0, 3)) == 0,
+          "as_list": as_list,
           "batch": draw(st.integers(1, 2)),
-          "xmode": draw(st.sampled_from(xmodes)),
+          "xmode": xmode,
           "kernel": draw(S.array_desc(shape=(n, units))),
           "kernel2": draw(S.array_desc(shape=(n, units))),
           "aux": draw(S.seeds)}
